@@ -7,6 +7,5 @@ CONSTANTS
   NSparse = 2
   NDense = 1
   MaxDepth = 7
-CONSTRAINT DepthBound
 INVARIANTS TypeOK Abstraction Traversals FindIsMember NoDangling Conservation FreedIsEmpty DenseTypeOK
 CHECK_DEADLOCK FALSE
